@@ -104,7 +104,7 @@ def run_b1(prop_id, plugin, n_defs, cap_vals, seed, corpus=None):
         import shutil
         shutil.rmtree(d, ignore_errors=True)
 
-    tables = [l for l in impl_lines if l[0] in ("rel", "methb", "metho", "methh", "hashv", "dbgv", "clonev", "clonef", "methv")]
+    tables = [l for l in impl_lines if l[0] not in plugin.ops]
     obs = [l for l in impl_lines if l[0] in plugin.ops]
     drv_in = [json.dumps(l) for l in tables]
     for td in defs:
